@@ -128,6 +128,9 @@ def run(P: Program, rep: Report):
                         fs = it.iterate(it.get_attr(e, "fields"))
                         vals = [it.get_attr(f, "value") for f in fs]
                         keys = [it.get_attr(f, "key") for f in fs]
+                        lines = [it.get_attr(f, "start_line") for f in fs]
+                        if lines != [4, 5, 6, 7]:
+                            probs.append(("R1", "field-start-lines", f"field start lines become {lines!r}, were [4, 5, 6, 7]"))
                         if vals[0] != Conv("T"):
                             probs.append(("R1", "str-field", f"string field value becomes {vals[0]!r}, expected the converter's result"))
                         if vals[1] != 1990 or not isinstance(vals[3], AList) or vals[3].items != ["a", "b"]:
